@@ -532,6 +532,8 @@ def run(chk: Check) -> None:
     for v in BADS:
         for st in states:
             for o in hygiene_ops(v):
+                if repr(v)[1:-1] not in repr(o):
+                    continue
                 h = ds.Headers(None if st is None else c08.make_arg(st, ds))
                 before = list(h)
                 present = o[0] in ("setdefault", "setlistdefault") and o[1] in h
@@ -576,7 +578,7 @@ def run(chk: Check) -> None:
                     for pt in (False, True):
                         combos.append((shape, status, method, preset, pt))
     random.Random(chk.seed).shuffle(combos)
-    take = combos if not quick else combos[:9000]
+    take = combos * (2 if quick else 20)
     for shape, status, method, preset, pt in take:
         ncb = rng.choice([0, 1, 3])
         pre = rng.choice([None, None, "make_sequence"])
@@ -626,8 +628,31 @@ def run(chk: Check) -> None:
 
 def replay(rep) -> int:
     import json
-    print(json.dumps(rep, indent=1))
-    return 0
+    import random
+    import re
+    from http import HTTPStatus
+    import werkzeug.datastructures as ds
+    chk = Check(PID, "quick", 0)
+    inp = rep.get("input") or {}
+    print("case:", json.dumps(inp, default=repr))
+    if isinstance(inp, dict) and inp.get("kind") == "hd":
+        R8 = c08.Runner(chk, ds)
+        c08.run_case(R8, inp)
+        for i, s in enumerate(R8.impl[0].split(" ")):
+            print(f"  step {i}: {s}")
+    elif isinstance(inp, dict) and inp.get("kind") == "resp":
+        st = inp["status"]
+        m = re.fullmatch(r"<HTTPStatus\.(\w+): \d+>", st)
+        status = HTTPStatus[m.group(1)] if m else ast.literal_eval(st)
+        for seed in range(20):       # the body content is random: try a few
+            line, obs = serve_case(chk, random.Random(seed), inp["shape"], status, inp["method"], inp["preset_cl"],
+                                   inp["direct_passthrough"], inp["callbacks"], inp["pre"], inp.get("location"), inp.get("autocorrect", False))
+            if chk.failures:
+                print("observation (chunks, status, headers, wrapped close count, callback runs):", obs)
+                break
+    for f in chk.failures[:3]:
+        print(f"PROPERTY FAILS key={f['key']}: {f['what']}")
+    return 1 if chk.failures else 0
 
 
 def main(chk: Check) -> None:
@@ -649,9 +674,14 @@ def main(chk: Check) -> None:
         "UTF-8 model lib/Utf8.v for str body items; int() of a status string on ASCII decimal digits",
         "the iterator protocol of generators / file wrappers and the counting of close() calls are observed by the harness",
     ]
-    run(chk)
+    try:
+        run(chk)
+    except Exception:  # noqa: BLE001
+        import traceback
+        chk.broken("harness-exception", "run", "an exception escaped the harness (the implementation raised where the harness does "
+                   "not expect it):\n" + traceback.format_exc())
     chk.finish(rule="(a) every Headers mutator x {clean, CR, LF, CRLF, lone LF} value x three header states, every pair of a mixed clean/dirty "
                     "operation alphabet, random mutator sequences of length 3-30, all other entry points (constructors, keyword options, |, "
                     "Response arguments) by oracle; (b) the product of 13 body shapes x 27 status values (int, HTTPStatus, string) x "
-                    "GET/HEAD/POST x Content-Length unset / removed / preset x direct_passthrough (quick: a seeded sample of 9000), with 0/1/3 "
+                    "GET/HEAD/POST x Content-Length unset / removed / preset x direct_passthrough (every combination twice in the quick tier, 20 times in the thorough tier, with random body content), with 0/1/3 "
                     "close callbacks and optional make_sequence; Location values by oracle. Distinct by hash of the case and its observation.")
